@@ -285,6 +285,13 @@ impl<M: Msg> Spec<M> {
 					buf[off] = orig ^ (1 << bit);
 					one(cx, &buf);
 				}
+				// off-by-one in every length / count / type byte (where it is not already a single-bit flip)
+				for nv in [orig.wrapping_sub(1), orig.wrapping_add(1)] {
+					if (nv ^ orig).count_ones() != 1 {
+						buf[off] = nv;
+						one(cx, &buf);
+					}
+				}
 			}
 			buf[off] = orig;
 			if off + 1 < len && !(buf[off] == 0xff && buf[off + 1] == 0xff) {
